@@ -1,6 +1,6 @@
 (* Facts for C18: the format read off the current source equals the frozen released format; the settings
    merge; handles.  Bridge lemmas (the only statements that look inside gen/Gen_Format.v) first. *)
-From DC Require Import DCPrelude DCPreludeFacts Val DiskBase FormatBase Gen_Disk Gen_Format Format_5_6_3 Open.
+From DC Require Import DCPrelude DCPreludeFacts Val DiskBase FormatBase Gen_Disk Disk Gen_Format Format_5_6_3 Open.
 
 (* ---------------- bridge lemmas ---------------- *)
 Lemma bridge_merge_order : Gen_Format.merge_order = [SrcDefaults; SrcStored; SrcGiven].
@@ -43,12 +43,41 @@ Lemma modes_frozen :
   Gen_Disk.MODE_PICKLE = Format_5_6_3.MODE_PICKLE /\ Gen_Disk.hash_mask = Format_5_6_3.hash_mask.
 Proof. repeat split; reflexivity. Qed.
 
-Lemma put_plan_frozen key : Gen_Disk.put_plan_of key = Format_5_6_3.put_plan_of key.
+(* A second recorded difference (repair of finding C02-F2 / C03-F1): the released Disk.put bound a float NaN KEY natively
+   (SQLite stores NULL: released_put_nan_null); the current one pickles it like every non-native key.  For every other key
+   the decision is the released one.  Stated as such, not as an equality. *)
+Lemma put_plan_frozen key : is_nan key = false -> Gen_Disk.put_plan_of key = Format_5_6_3.put_plan_of key.
 Proof.
-  destruct key as [z|f|s|b|i|b]; try reflexivity.
-  unfold Gen_Disk.put_plan_of, Format_5_6_3.put_plan_of. cbn [is_bytes is_str is_int is_float pv_int orb andb Z.opp].
-  rewrite orb_false_r. destruct ((-9223372036854775808 <=? z) && (z <=? 9223372036854775807)); reflexivity.
+  destruct key as [z|f|s|b|i|b]; intros N; try reflexivity.
+  - unfold Gen_Disk.put_plan_of, Format_5_6_3.put_plan_of. cbn [is_bytes is_str is_int is_float pv_int orb andb Z.opp].
+    rewrite orb_false_r. destruct ((-9223372036854775808 <=? z) && (z <=? 9223372036854775807)); reflexivity.
+  - destruct f; [discriminate N|reflexivity..].
 Qed.
+
+Lemma put_plan_nan_differs :
+  Format_5_6_3.put_plan_of (VFloat FNaN) = PutNative true /\ Gen_Disk.put_plan_of (VFloat FNaN) = PutPickle false.
+Proof. split; reflexivity. Qed.
+
+(* Disk.put as released: the frozen decision tree under the interpretation of model/Disk.v *)
+Definition released_put (c : codec) (key : pyval) : put_res := put_with Format_5_6_3.put_plan_of c key.
+
+(* the former finding as a statement about the RELEASED put: a NaN key becomes a NULL database key (raw = 1) ... *)
+Lemma released_put_nan_null c : released_put c (VFloat FNaN) = PutOk SNull true.
+Proof. reflexivity. Qed.
+
+(* ... which is no key at all: SinvFacts.null_key_matches_nothing (`key = ?` is never true against NULL), so each released
+   set under NaN added a row and nothing could reach it by key; the current put gives the one BLOB key pkk NaN, raw = 0 *)
+Lemma current_put_nan c : put c (VFloat FNaN) = PutOk (SBlob (pkk c (VFloat FNaN))) false.
+Proof. reflexivity. Qed.
+
+Lemma released_and_current_put_nan c :
+  put_with Format_5_6_3.put_plan_of c (VFloat FNaN) = PutOk SNull true /\
+  put c (VFloat FNaN) = PutOk (SBlob (pkk c (VFloat FNaN))) false.
+Proof. exact (conj (released_put_nan_null c) (current_put_nan c)). Qed.
+
+(* the repair changes nothing else: every other key gets the database key the released code gave it *)
+Lemma put_compatible c key : is_nan key = false -> put c key = released_put c key.
+Proof. intros N. unfold put, released_put, put_with. rewrite (put_plan_frozen key N). reflexivity. Qed.
 
 Lemma store_plan_frozen m pkv value read :
   Gen_Disk.store_plan_of m pkv value read = Format_5_6_3.store_plan_of m pkv value read.
@@ -404,14 +433,15 @@ Lemma format_frozen :
   (Gen_Disk.MODE_NONE = Format_5_6_3.MODE_NONE /\ Gen_Disk.MODE_RAW = Format_5_6_3.MODE_RAW /\
    Gen_Disk.MODE_BINARY = Format_5_6_3.MODE_BINARY /\ Gen_Disk.MODE_TEXT = Format_5_6_3.MODE_TEXT /\
    Gen_Disk.MODE_PICKLE = Format_5_6_3.MODE_PICKLE /\ Gen_Disk.hash_mask = Format_5_6_3.hash_mask) /\
-  (forall key, Gen_Disk.put_plan_of key = Format_5_6_3.put_plan_of key) /\
+  ((forall key, is_nan key = false -> Gen_Disk.put_plan_of key = Format_5_6_3.put_plan_of key) /\
+   Format_5_6_3.put_plan_of (VFloat FNaN) = PutNative true /\ Gen_Disk.put_plan_of (VFloat FNaN) = PutPickle false) /\
   (forall m pkv value read, Gen_Disk.store_plan_of m pkv value read = Format_5_6_3.store_plan_of m pkv value read) /\
   (forall mode n r, Gen_Disk.fetch_plan_of mode n r = Format_5_6_3.fetch_plan_of mode n r) /\
   (forall e, Gen_Disk.write_newline e = Format_5_6_3.write_newline e) /\
   (forall k, Gen_Disk.hash_plan_of k = Format_5_6_3.hash_plan_of k).
 Proof.
   split; [exact format_constants_frozen|]. split; [exact modes_frozen|].
-  split; [exact put_plan_frozen|]. split; [exact store_plan_frozen|]. split; [exact fetch_plan_frozen|].
+  split; [exact (conj put_plan_frozen put_plan_nan_differs)|]. split; [exact store_plan_frozen|]. split; [exact fetch_plan_frozen|].
   split; [exact write_newline_frozen|exact hash_plan_frozen].
 Qed.
 
